@@ -87,6 +87,32 @@ var propertyClauses = map[string]clauseInfo{
 			"termination needs a reader that does not return (0, nil) forever",
 		},
 	},
+	"C12": {
+		decided: []string{
+			"Extract never replaces an existing entry (the map update is reached only for a key that is absent), never stores the empty label, and stores under the label node's normalised reference; MatchReference is key presence",
+			"Extract examines blocks in document order: explicit-stack step contract (each iteration pops the top, leaves the rest of the stack unchanged, pushes the children of a non-definition block in reverse) plus the code-independent lemma L-DFS; hence among competing definitions inside one root block the first in source order is the one stored",
+			"label normalisation returns the Unicode case fold (assumed dependency golang.org/x/text/cases) of the collapsed text stripped of ' ' only, on every path, exactly once; Unicode whitespace other than space/tab/line ending is not stripped",
+		},
+		notDecided: []string{
+			"that the text handed to the fold is the label's text with runs of space/tab/line ending collapsed to one space (the collapse loop runs over the inline reader, which is abstracted here)",
+			"parseEndBracket: that a reference-style link or image is created only after MatchReference returned true for its normalised label (tree-building code, not under contract)",
+			"Parse: every Extract precedes every Rewrite (two-pass) — visible in the code of Parse, whose loop is under contract only for the parser state",
+			"recognition of definitions (onCloseParagraph) is not under contract",
+		},
+	},
+	"C20": {
+		decided: []string{
+			"(*formatWriter).s, writeStrings, writeTrimmedIndent: no write through the caller's writer is attempted after one has failed; the error reported is the first one; with an error already latched s performs no write at all and keeps the error (ghost state failed/firstErr/calls, obligations at every write site)",
+			"structural: every write of package format goes through these functions, the sticky error is assigned only in s, and Format returns it",
+			"frame: nothing reachable from Format writes memory reachable from the blocks (tree and Source untouched) or a package-level variable; no map iteration or goroutine (same bytes every time)",
+			"push/pop keep the indent stack consistent (pop requires a non-empty stack)",
+		},
+		notDecided: []string{
+			"the second sentence (formatted text of a canonical document re-parses to the same HTML and is a fixed point): a whole-pipeline relation, not expressible as a contract (DESIGN 8)",
+			"totality of preBlock/postBlock/visitInline/postInline on a healthy writer (index safety of Child(0..2) etc.) is not under contract",
+			"that pop is only called with a non-empty stack follows from the Walk discipline (Post follows a Pre that pushed); not generated",
+		},
+	},
 	"C07": {
 		decided: []string{
 			"escapeHTML: the appended region contains none of < > \" ' and every & in it starts one of the five entities it emits (all inputs, unbounded)",
